@@ -1,6 +1,8 @@
 (* C07 -- Reported offsets and quoted bytes are truthful.  Property theorems only. *)
 From Coq Require Import List NArith.
-From FP Require Import Model.Base Model.Rdh Model.Payload Model.Scanner Model.CdpRunning Model.Link Proofs.C07_proofs.
+From FP Require Import Model.Base Model.Rdh Model.Payload Model.Scanner Model.CdpRunning Model.Link Model.Collector Model.System Spec.Framing Spec.GroundTruth
+  Proofs.C03_proofs Proofs.C07_proofs Proofs.C07_run Proofs.C14_proofs Proofs.C05_run.
+From FP Require Gen.Facts.
 Import ListNotations.
 Open Scope N_scope.
 
@@ -46,7 +48,30 @@ Theorem C07_word : forall c s0 w s' ms, cdp_check c s0 w = Ok (s', ms) ->
   frame_step (word_pos s) (frame_start s0) (frame_start s').
 Proof. exact cdp_check_ok. Qed.
 
+(* ONE VALIDATOR'S WHOLE PASS over any packet list (arbitrary contents; the layout proviso per packet; payloads of at most 10000 bytes
+   as the scanner hands them on): every error message is located at the start of the RDH or of an 80-bit word -- slot j of the payload,
+   slots of the size the header's data format prescribes, ten bytes of it inside the payload -- of one of the packets THIS validator
+   was given (readout-frame messages: at the TDH that opened the frame, a word of an earlier packet of the same validator) *)
+Theorem C07_validator_pass : forall c ps ms, Forall layout_ok ps -> Forall small ps -> run_validator c ps = Ok ms ->
+  forall e, In (VErr e) ms -> starts ps (e_off e).
+Proof. exact c07_validator_starts. Qed.
+
+(* ONE WHOLE `check` RUN on a well-framed input, every mode / target / filter / option: every error message the run ends with (report,
+   statistics file) is located at the start of the RDH or of an 80-bit word of a packet of the input that passed the filter, and
+   lies inside the input *)
+Theorem C07_whole_run : forall c pkts ff s shown e,
+  Forall wf_pkt pkts -> N.of_nat (length pkts) < U32_MAX -> pay_all pkts < U32_MAX ->
+  (forall p, In p pkts -> layout_rp (hdr p) (p_payload p)) ->
+  (forall p r, pkts = p :: r -> known_sysid (r_system_id (hdr p)) = true) ->
+  run_check ff c (serialize pkts) = R_done s shown e ->
+  forall m, In m (k_errors s) ->
+  exists q, In q (map (mk_cdp (rc_scan c)) (selected (rc_scan c) 0 pkts)) /\ start_of q (m_off m) /\
+            m_off m < N.of_nat (length (serialize pkts)).
+Proof. exact (fun c pkts ff s shown e H1 H2 H3 H4 H5 => c07_whole_run c pkts (eq_refl : Gen.Facts.cdp_offset_sampled_after = true) H1 H2 H3 H4 H5 ff s shown e). Qed.
+
 Print Assumptions C07_packet.
 Print Assumptions C07_quoted_bytes.
 Print Assumptions C07_rdh_messages.
 Print Assumptions C07_word.
+Print Assumptions C07_validator_pass.
+Print Assumptions C07_whole_run.
